@@ -39,7 +39,7 @@ theorem shiftInF_succ_form (σ : Sigma) (fuel : Nat) (data : Bytes) (hl : ¬ dat
       rw [List.drop_append_of_le_length hA, List.drop_of_length_le hB, List.nil_append]
 
 theorem inputLoop_sim {σ : Sigma} (regular : Bool) (fuel : Nat) (data : Bytes) (st st' : InLoop)
-    (h : ISim σ st st') (hs : inputLoopSafe regular fuel data st = true) :
+    (h : ISim σ st st') :
     ISim σ (inputLoop regular fuel data st) (inputLoop regular fuel (shiftInF σ fuel data) st') := by
   induction fuel generalizing data st st' with
   | zero => exact h
@@ -53,31 +53,28 @@ theorem inputLoop_sim {σ : Sigma} (regular : Bool) (fuel : Nat) (data : Bytes) 
     obtain ⟨f0, f4, f5, f6, f8, f12, f16, f20, fd⟩ := shiftHd_fields σ data rest hl
     have hlen : (shiftHd σ data ++ rest).length = data.length := by
       rw [← hD, shiftInF_length]
-    unfold inputLoopSafe at hs
     rw [hD]
     simp only [hlen, f0, f4, f5, f6, f8, f12, f16, f20, fd, hrl, h.k.conv]
-    simp only [if_neg c0] at hs ⊢
+    simp only [if_neg c0]
     by_cases c1 : rd32 data 0 ≠ st.k.conv
     · simp only [if_pos c1]; exact { h with ret := rfl }
-    simp only [if_neg c1] at hs ⊢
+    simp only [if_neg c1]
     by_cases c2 : (data.drop IKCP_OVERHEAD).length < (rd32 data 20).toNat ∨ (rd32 data 20).toNat > mtuLimit
     · simp only [if_pos c2]; exact { h with ret := rfl }
-    simp only [if_neg c2] at hs ⊢
+    simp only [if_neg c2]
     by_cases c3 : (BitVec.ofNat 8 (byteAt data 4)).toNat ≠ IKCP_CMD_PUSH ∧ (BitVec.ofNat 8 (byteAt data 4)).toNat ≠ IKCP_CMD_ACK ∧
           (BitVec.ofNat 8 (byteAt data 4)).toNat ≠ IKCP_CMD_WASK ∧ (BitVec.ofNat 8 (byteAt data 4)).toNat ≠ IKCP_CMD_WINS
     · simp only [if_pos c3]; exact { h with ret := rfl }
-    simp only [if_neg c3] at hs ⊢
+    simp only [if_neg c3]
     have c2' : ¬ (data.drop IKCP_OVERHEAD).length < (rd32 data 20).toNat := fun hc => c2 (Or.inl hc)
     obtain ⟨ht, hdr⟩ := hrt c2'
     rw [ht, hdr]
-    simp only [Bool.and_eq_true] at hs
     have hp := procSeg_sim h regular (rd32 data 0) (BitVec.ofNat 8 (byteAt data 4)) (BitVec.ofNat 8 (byteAt data 5))
       (rd16 data 6) (rd32 data 8) (rd32 data 12) (rd32 data 16)
-      ((data.drop IKCP_OVERHEAD).take (rd32 data 20).toNat) hs.1
-    have hs2 := hs.2
+      ((data.drop IKCP_OVERHEAD).take (rd32 data 20).toNat)
     generalize procSeg regular st (rd32 data 0) (BitVec.ofNat 8 (byteAt data 4)) (BitVec.ofNat 8 (byteAt data 5))
       (rd16 data 6) (rd32 data 8) (rd32 data 12) (rd32 data 16)
-      ((data.drop IKCP_OVERHEAD).take (rd32 data 20).toNat) = st2 at hp hs2 ⊢
+      ((data.drop IKCP_OVERHEAD).take (rd32 data 20).toNat) = st2 at hp ⊢
     generalize procSeg regular st' (rd32 data 0) (BitVec.ofNat 8 (byteAt data 4)) (BitVec.ofNat 8 (byteAt data 5))
       (rd16 data 6) (rd32 data 8 + (inDeltas σ (BitVec.ofNat 8 (byteAt data 4)).toNat).1)
       (rd32 data 12 + (inDeltas σ (BitVec.ofNat 8 (byteAt data 4)).toNat).2.1)
@@ -85,8 +82,8 @@ theorem inputLoop_sim {σ : Sigma} (regular : Bool) (fuel : Nat) (data : Bytes) 
       ((data.drop IKCP_OVERHEAD).take (rd32 data 20).toNat) = st2' at hp ⊢
     rw [hp.panic]
     cases hpan : st2.panic
-    · simp only [hpan, Bool.false_eq_true, if_false] at hs2 ⊢
-      exact ih _ _ _ hp hs2
+    · simp only [Bool.false_eq_true, if_false]
+      exact ih _ _ _ hp
     · simp only [if_true]
       exact hp
 
@@ -140,10 +137,8 @@ theorem inputTail_sim {σ : Sigma} {st st' : InLoop} (h : ISim σ st st') (oldUn
   · simp only [if_neg c3]
     exact ⟨h2, rfl, All₂.nil, rfl⟩
 
-/-- **`Input` commutes with the shift**, provided no forged ACK makes `parse_fastack` look at a
-never-transmitted segment (`inputSafe`). -/
-theorem input_sim {σ : Sigma} {k k' : Kcp} (h : Sim σ k k') (data : Bytes) (regular ackNoDelay : Bool) (now : U32)
-    (hs : inputSafe k data regular = true) :
+/-- **`Input` commutes with the shift**, for every byte string -/
+theorem input_sim {σ : Sigma} {k k' : Kcp} (h : Sim σ k k') (data : Bytes) (regular ackNoDelay : Bool) (now : U32) :
     InRel σ (input k data regular ackNoDelay now) (input k' (shiftIn σ data) regular ackNoDelay (now + σ.t)) := by
   rw [input_eq, input_eq, shiftIn_length]
   by_cases c0 : data.length < IKCP_OVERHEAD
@@ -151,7 +146,7 @@ theorem input_sim {σ : Sigma} {k k' : Kcp} (h : Sim σ k k') (data : Bytes) (re
     exact ⟨h, rfl, All₂.nil, rfl⟩
   simp only [if_neg c0]
   have h0 : ISim σ { k := k } { k := k' } := ⟨h, (fun hc => Bool.noConfusion hc), rfl, rfl, rfl, rfl⟩
-  have hl := inputLoop_sim regular (data.length / IKCP_OVERHEAD + 1) data { k := k } { k := k' } h0 hs
+  have hl := inputLoop_sim regular (data.length / IKCP_OVERHEAD + 1) data { k := k } { k := k' } h0
   unfold shiftIn
   generalize inputLoop regular (data.length / IKCP_OVERHEAD + 1) data { k := k } = st at hl ⊢
   generalize inputLoop regular (data.length / IKCP_OVERHEAD + 1)
